@@ -106,6 +106,60 @@ theorem family_agree (sys : Sys) (fuel : Nat) (sims : List Id) (d : sims.Pairwis
         simp only [runCalls, resultsCalls, hs, List.filterMap_cons, callsOf, hij, if_false]
         exact this
 
+/-! ## arbitrary region-local computations on a family -/
+
+/-- the heap after computations addressed to members of a family (by rank) -/
+def runFamilyAny {α : Type} : List (Nat × HM α) → Heap → Heap
+  | [], h => h
+  | (_, m) :: rest, h => runFamilyAny rest (m h).2
+
+def resultsFamilyAny {α : Type} (j : Nat) : List (Nat × HM α) → Heap → List (Except Err α)
+  | [], _ => []
+  | (i, m) :: rest, h => if i = j then (m h).1 :: resultsFamilyAny j rest (m h).2 else resultsFamilyAny j rest (m h).2
+
+def ofRankAny {α : Type} (j : Nat) (e : Nat × HM α) : Option (HM α) := if e.1 = j then some e.2 else none
+
+/-- frame rule + induction for any number of simulations: computations that are each local to the region of the
+member they are addressed to, against the computations of member `j` alone -/
+theorem family_any_agree {α : Type} (sims : List Id) (d : sims.Pairwise (fun a b => a.reg ≠ b.reg))
+    (j : Nat) (x : Id) (hj : sims[j]? = some x) :
+    ∀ (calls : List (Nat × HM α)),
+      (∀ e ∈ calls, ∃ y, sims[e.1]? = some y ∧ Loc y.reg e.2 (fun _ => True)) →
+      ∀ (hi ha : Heap), (∀ y ∈ sims, Closed y.reg hi) → hi[x.reg]? = ha[x.reg]? →
+      (runFamilyAny calls hi)[x.reg]? = (runAnySide (calls.filterMap (ofRankAny j)) ha)[x.reg]?
+      ∧ (∀ y ∈ sims, Closed y.reg (runFamilyAny calls hi))
+      ∧ resultsFamilyAny j calls hi = resultsAnySide (calls.filterMap (ofRankAny j)) ha := by
+  intro calls
+  induction calls with
+  | nil => intro _ hi ha cl e; exact ⟨e, cl, rfl⟩
+  | cons a rest ih =>
+    intro hloc hi ha cl e
+    obtain ⟨i, m⟩ := a
+    obtain ⟨y, hs, L⟩ := hloc (i, m) (List.mem_cons_self ..)
+    have hrest : ∀ e ∈ rest, ∃ y, sims[e.1]? = some y ∧ Loc y.reg e.2 (fun _ => True) :=
+      fun e he => hloc e (List.mem_cons_of_mem _ he)
+    have hy : y ∈ sims := List.mem_of_getElem? hs
+    have fr := L.frame hi (cl y hy)
+    have cl' : ∀ z ∈ sims, Closed z.reg (m hi).2 := by
+      intro z hz
+      by_cases ez : z.reg = y.reg
+      · rw [ez]; exact fr.1
+      · exact (cl z hz).congr (fr.2.1 z.reg ez).symm
+    by_cases hij : i = j
+    · subst hij
+      simp only at hs
+      rw [hj] at hs
+      cases hs
+      have lc := L.loc hi ha (cl x hy) e
+      have := ih hrest _ (m ha).2 cl' lc.2.symm
+      simp only [runFamilyAny, resultsFamilyAny, List.filterMap_cons, ofRankAny, if_true, runAnySide, resultsAnySide]
+      exact ⟨this.1, this.2.1, by rw [this.2.2, lc.1]⟩
+    · have hr : y.reg ≠ x.reg := pairwise_mem_ne d hs hj hij
+      have keep : (m hi).2[x.reg]? = hi[x.reg]? := fr.2.1 _ (Ne.symm hr)
+      have := ih hrest _ ha cl' (keep.trans e)
+      simp only [runFamilyAny, resultsFamilyAny, List.filterMap_cons, ofRankAny, hij, if_false]
+      exact this
+
 /-- cloning a member of a separate family: the family with the clone is separate -/
 theorem clone_separate {h h' : Heap} {sims : List Id} (sp : Separate h sims) {x c : Id} {t d : Bool}
     (hx : x ∈ sims) (hc : cloneSim x t d h = (.ok c, h')) : Separate h' (sims ++ [c]) := by
